@@ -270,3 +270,6 @@ def run(ctx):
     # growth next to C04: which tracks share which list / Obs objects (TrackShare.tla)
     from drivers import trackshare_common
     trackshare_common.run(ctx, quick)
+    # growth next to C04: Track.cleanDuplicates (Dedup.tla)
+    from drivers import dedup_common
+    dedup_common.run(ctx, quick)
